@@ -2,14 +2,14 @@
 # Must-fail corpus: applies each selftest/<ID>/*.patch to /repo, runs the check, reverts.
 # m*.patch must yield VIOLATION (exit 1); benign*.patch must stay quiet (exit 0).
 # The evidence file of the clean tree is saved and restored (mutated runs must not leave evidence behind).
-ID="$1"; ONLY="$2"; rc=0   # optional second argument: substring filter on the patch name
+ID="$1"; ONLY="$2"; rc=0; R=${GOVC_REPO:-/repo}
 [ -f /verif/evidence/$ID.json ] && cp /verif/evidence/$ID.json /tmp/.evidence.$ID.$$ 
 for p in /verif/selftest/$ID/*.patch; do
   n=$(basename $p .patch)
   case "$n" in *"$ONLY"*) ;; *) continue;; esac
-  git -C /repo apply "$p" || { echo "SELFTEST $ID $n: patch does not apply"; rc=1; continue; }
+  git -C $R apply "$p" || { echo "SELFTEST $ID $n: patch does not apply"; rc=1; continue; }
   out=$(/verif/check $ID quick 2>&1); code=$?
-  git -C /repo apply -R "$p"
+  git -C $R apply -R "$p"
   case "$n" in
     benign*) if [ $code -eq 0 ]; then echo "SELFTEST $ID $n: ok (quiet)"; else echo "SELFTEST $ID $n: FALSE ALARM"; echo "$out" | tail -5; rc=1; fi;;
     *) if [ $code -eq 1 ] && echo "$out" | grep -q "^VIOLATION property=$ID"; then echo "SELFTEST $ID $n: ok (caught: $(echo "$out" | grep -c '^VIOLATION') obligations, $(echo "$out" | grep '^VIOLATION' | grep -vc no-failing-input-found) replayed on real code)"; else echo "SELFTEST $ID $n: MISSED (exit $code)"; echo "$out" | tail -5; rc=1; fi;;
